@@ -180,12 +180,13 @@ def float_family():
   non-distinct multi-choice (the embedding rotates)."""
   out = []
   for scale in SCALES:
-    for _, positive, ranges in float_ranges():
+    for cls, positive, ranges in float_ranges():
       if not positive and scale in ('log', 'rlog'):
         continue                  # documented: min_value must be positive
       for at in range(0, len(ranges), 3):
         fs = [floatv(lo, hi, scale) for lo, hi in ranges[at:at + 3]]
-        how = len(out) % 3
+        # (width-overflow: never conditional, so that every draw has the float)
+        how = len(out) % (2 if cls == 'width-overflow' else 3)
         if how == 0:
           d = S.space(*fs)
         elif how == 1:
